@@ -216,6 +216,12 @@ func Catalogue(w *wf.WF) []*seam.Scenario {
 		two.Pass[k][2] = false
 	}
 	out = append(out, two)
+	rev := seam.NewScenario("item2-uniformity-and-item7-count", s)
+	setHist(rev, 2, cnt)
+	for _, k := range spread(s, s-t+1) {
+		rev.Pass[k][7] = false
+	}
+	out = append(out, rev)
 	catCache[w.Name] = out
 	return out
 }
